@@ -677,7 +677,57 @@ theorem facts_guard :
     Gen.Facts.c09LazyReservedIncSites = some 1 ∧ Gen.Facts.c09LazyReservedDecSites = some 2 ∧
     Gen.Facts.c09LazyWgDoneSites = some 3 ∧ Gen.Facts.c09LazyWgAddSites = some 1 ∧
     Gen.Facts.c09PipelineUsesEachReservationOnce = some true ∧
-    Gen.Facts.c09PipelinePickStopsAtFirstReservation = some true ∧ Gen.Facts.c09PipelineMaxReserveAttempt = some 16 := by decide
+    Gen.Facts.c09PipelinePickStopsAtFirstReservation = some true ∧ Gen.Facts.c09PipelineMaxReserveAttempt = some 16 ∧
+    Gen.Facts.c09LimitsComeFromOpts = some true ∧
+    Gen.Facts.c09UpstreamPipelineLimits = some [(4096, 4096), (64, 64), (64, 64)] := by decide
+
+/-! ## the limits as `NewUpstream` configures them
+
+`c09UpstreamPipelineLimits` lists, for every `PipelineTransport` that `NewUpstream`
+builds over a `TraditionalDnsConn` (udp, tcp, tls), the pair (limit while dialing,
+limit of the dialed connection), each resolved from the option literals to a
+number (`c09LimitsComeFromOpts`: the constructors install exactly these). -/
+
+/-- **As configured, the limit of the dialed connection equals the limit while
+dialing**, for every pipelining upstream. -/
+theorem upstream_limits_equal :
+    ∀ p ∈ Gen.Facts.c09UpstreamPipelineLimits.getD [], p.1 = p.2 := by decide
+
+/-- the hypothesis `a ≤ b` of `queued_while_dialing_not_refused` holds for the
+upstreams as built: a query queued while one of their connections was dialing is
+admitted by the live connection once the dial succeeded. -/
+theorem upstream_queued_while_dialing_not_refused (p : Nat × Nat) (hp : p ∈ Gen.Facts.c09UpstreamPipelineLimits.getD [])
+    (ls : List SLabel) (s : Sys) (hr : (Sys.init p.1 p.2).run ls = some s) (hok : s.lz.dial = .ok) (hw : 0 < s.lz.ew)
+    (hc : s.tdc.closed = false) : ∃ s', s.step (.lz .proceed) = some (s', .admitted) :=
+  queued_while_dialing_not_refused p.1 p.2 (Nat.le_of_eq (upstream_limits_equal p hp)) ls s hr hok hw hc
+
+/-- witness: a connection limit below the queue limit (32 under a queue of 64, what an
+omitted `MaxConcurrentQuery` gives): with the queue full, the 33rd queued query is refused
+by the live connection. -/
+example : ((Sys.init 64 32).run ((List.replicate 64 (.lz .reserve)) ++ (List.replicate 64 (.lz .enter)) ++ [.lz .dialOk] ++
+    List.replicate 32 (.lz .proceed))).bind (fun s => (s.step (.lz .proceed)).map (·.2)) = some .refused := by decide
+
+/-! ## why every reservation must be used: a dropped one is capacity lost for good
+
+`c09PipelineUsesEachReservationOnce` (and the harness callers) discharge the
+assumption "every reservation is handed to ExchangeReserved or WithdrawReserved".
+Without it: -/
+
+/-- witness: while a reservation is held and never used, a live connection with nothing
+unanswered admits fewer queries than a fresh one -/
+theorem dropped_reservation_loses_capacity (max : Nat) (ls : List TLabel) (s : Tdc) (hr : (Tdc.init max).run ls = some s)
+    (hc : s.closed = false) (hh : 0 < s.h) : s.free < (Tdc.init max).free := by
+  rw [tdc_capacity max ls s hr hc]
+  simp only [Tdc.free, Tdc.init, Bool.false_eq_true, ↓reduceIte]
+  omega
+
+/-- witness: while an early reservation is held and never used, no reservation gets through
+the wrapper after the dial succeeded (the late caller waits for the early ones for ever) -/
+theorem dropped_early_reservation_blocks (s : Lazy) (hi : s.Inv) (hok : s.dial = .ok) (hh : 0 < s.eh) :
+    s.step .reserve = none := by
+  have := hi.wgGe
+  have hne : ¬ s.wg = 0 := by omega
+  simp [Lazy.step, hok, hne]
 
 /-! ## non-vacuity: histories that meet the hypotheses -/
 
